@@ -376,8 +376,8 @@ fn c13(tier: &str) -> Vec<String> {
         // the default constructor: capacity must be 512
         v.push(format!("sock-buf:sink={}:depth={}", sink, if th { 4 } else { 3 }));
     }
-    v.push(format!("sock-buf:sink=unix:cap=16:faults=1:depth={}", if th { 5 } else { 4 }));
-    v.push(format!("sock-buf:sink=unix:cap=8:faults=1:depth={}", if th { 5 } else { 4 }));
+    v.push(format!("sock-buf:sink=unix:cap=4:faults=1:depth={}", if th { 7 } else { 6 }));
+    v.push(format!("sock-buf:sink=unix:cap=8:faults=1:depth={}", if th { 6 } else { 5 }));
     v
 }
 
@@ -388,7 +388,7 @@ fn c14(tier: &str) -> Vec<String> {
         v.push(format!("sock-faults:sink={}:depth={}", sink, if th { 6 } else { 5 }));
     }
     v.push("sock-buf:sink=udp:cap=16:depth=3".into());
-    v.push("sock-buf:sink=unix:cap=16:faults=1:depth=4".into());
+    v.push("sock-buf:sink=unix:cap=4:faults=1:depth=5".into());
     let progs: Vec<&str> = if th { vec!["oo.oo", "oe.eo", "o.o.o", "oe.o.e", "ooo.oo", "oe.oe.oe", "oo.oo.o"] } else { vec!["oo.oo", "oe.eo", "o.o.o", "oe.o.e"] };
     for prog in progs {
         for mode in ["raw", "unix", "udp"] {
@@ -398,6 +398,32 @@ fn c14(tier: &str) -> Vec<String> {
             v.push(format!("stats:mode={}:prog={}{}", mode, prog, p));
         }
     }
+    v
+}
+
+fn c17(_tier: &str) -> Vec<String> {
+    ["A", "B", "C", "D", "E", "F", "U"].iter().map(|c| format!("probe:cfg={}", c)).collect()
+}
+
+fn c20(tier: &str) -> Vec<String> {
+    let mut v: Vec<String> = ["strings", "numbers", "lists", "buffers", "queues", "addresses"].iter().map(|p| format!("sweep:part={}", p)).collect();
+    // the other engines run with overflow checks and debug assertions on and tag every panic C20
+    for end in ends() {
+        for cap in 0..=4 {
+            v.push(format!("wbfs:cap={}:end={}:F=1", cap, end));
+        }
+    }
+    v.extend(c02(tier));
+    for row in 0..24 {
+        v.push(format!("fmt01:row={}:form=try:tier=quick:dirty=1", row));
+    }
+    for cap in ["0", "1"] {
+        for sc in ["", "p", "pp", "e"] {
+            v.push(bounded(format!("queue:cap={}:script={}:prog=E0E0QRE0D0", cap, sc), tier));
+            v.push(bounded(format!("queue:cap={}:script={}:prog=SJQR:prod=EE:sampler=1", cap, sc), tier));
+        }
+    }
+    v.extend(c17(tier));
     v
 }
 
@@ -412,6 +438,8 @@ pub fn instances(prop: &str, tier: &str) -> Vec<String> {
         "C02" => c02(tier),
         "C03" => c03(tier),
         "C04" => c04(tier),
+        "C17" => c17(tier),
+        "C20" => c20(tier),
         "C12" => c12(tier),
         "C13" => c13(tier),
         "C14" => c14(tier),
